@@ -102,6 +102,7 @@ def _cases(draw):
         schema_kw={"defaults": 0.1, "scalar_names": ("Money", "DateTime"), "n_scalars": (0, 2), "scalar_weight": 2},
         ops_kw={"frag_p": 0.6, "var_p": 0.5, "local_var_names": True, "root_frag_reroll_p": 0.0, "root_family_p": 0.35},
         doc_kw={"n_ops": (1, 4), "n_frags": (0, 4)}, desc_hook=hook, config_desc_fn=scalar_cfg,
+        subscriptions_if_async=True,
     )
     case.pop("_desc_obj", None)
     if case.get("rejected"):
@@ -233,9 +234,7 @@ def run_case(case, scratch):
     fragments = opwalk.fragments_of(doc)
     opdefs = opwalk.operations_of(doc)
     for call in case["calls"]:
-        op = us.ops[call["op"]]
-        if op["kind"] == "subscription":
-            continue
+        op = us.ops[call["op"]]  # subscriptions: one event from a scripted socket stands for the result
         units += 1
         ru = us.call(call)
         if ru["problem"] or ru["exc"] is not None or ru["request"] is None or ru["rec"] is None or ru["rec"]["errors"]:
